@@ -17,7 +17,7 @@ def bracket(rng, gates):
 def cases(rng, tier):
     cs = []
     maxlen = 60 if tier == "quick" else 400
-    for _ in range(120 if tier == "quick" else 600):
+    for _ in range(120 if tier == "quick" else 3000):
         n = rng.randint(0, 5)
         k = rng.choice([0, 1, 2, 3, 4, 5, 7, 8, rng.randint(0, maxlen)])
         gates = [gen.random_gate(rng, n, kinds=gen.ALL_KINDS + ["qft"]) for _ in range(k)]
@@ -38,12 +38,12 @@ def cases(rng, tier):
         cs.append({"kind": "matrix", "n": n, "e": ("mul", g, ("id",))})
         cs.append({"kind": "struct", "e": ("mul", ("mul", ("id",), g), ("id",))})
     # matrix of products for n <= 3
-    for _ in range(60 if tier == "quick" else 300):
+    for _ in range(60 if tier == "quick" else 1500):
         n = rng.randint(1, 3)
         gates = [gen.random_gate(rng, n) for _ in range(rng.randint(2, 9))]
         cs.append({"kind": "matrix", "n": n, "e": bracket(rng, gates)})
     # disjoint supports commute: both orders
-    for _ in range(60 if tier == "quick" else 300):
+    for _ in range(60 if tier == "quick" else 1500):
         n = rng.randint(2, 5)
         for _try in range(20):
             a = gen.random_gate(rng, n, allow_empty=False); b = gen.random_gate(rng, n, allow_empty=False)
